@@ -79,6 +79,14 @@ def must_fail(phrase, setting, enabled=None):
         return "unknown-tag"
     if yes_unsupported(setting):
         return "unsupported-parameter"
+    if setting.startswith(b"$sha1$"):
+        # crypt(5): the sha1crypt cost is a decimal number of at most 4,294,967,295.  A negative one is malformed
+        # (strtoul would read it as 2^64 - n), and so is one above the documented maximum.
+        f = setting[6:].split(b"$", 1)[0]
+        if f[:1] == b"-" and f[1:].isdigit():
+            return "negative-cost"
+        if f.isdigit() and int(f) > 2 ** 32 - 1:
+            return "cost-above-maximum"
     return None
 
 
